@@ -530,3 +530,50 @@ Definition http_call (sock : hsock) (fs : str -> option str) (v : variant) (cfg 
   | ((e, Again), n) => if nonblocking sock then Returned (e, Again) n else Blocked
   | (r, n) => Returned r n
   end.
+
+(* ------------------------------------------------------------------ the send side: rfbWriteExact (sockets.c) *)
+(* what one iteration of its loop meets *)
+Inductive wev :=
+| WWrote (k : Z)   (* write() accepted k > 0 bytes *)
+| WZero            (* write() returned 0 *)
+| WErr             (* write() failed, not EAGAIN/EINTR *)
+| WReady           (* EAGAIN, then select() reports the socket writable *)
+| WTimeout         (* EAGAIN, then select() times out after its slice *)
+| WSelErr.         (* EAGAIN, then select() fails *)
+
+Inductive wres := WOk | WRet0 | WFail | WGiveUp.
+
+(* the peer never reads again: only timeouts from here on *)
+Fixpoint wx_tail (fuel : nat) (timeout slice waited total : Z) : option (wres * Z) :=
+  match fuel with
+  | O => None
+  | S k =>
+      let w := waited + slice in
+      let t := total + slice in
+      if w >=? timeout then Some (WGiveUp, t) else wx_tail k timeout slice w t
+  end.
+
+(* [waited] = totalTimeWaited (reset whenever select reports the socket writable); [total] = virtual
+   time spent waiting in this call; the result carries the total.  End of the schedule = the peer
+   never reads again. *)
+Fixpoint wx_loop (sched : list wev) (timeout slice len waited total : Z) : option (wres * Z) :=
+  if len <=? 0 then Some (WOk, total) else
+  match sched with
+  | [] => wx_tail (Z.to_nat (timeout / slice) + 2) timeout slice waited total
+  | WWrote k :: r => if k <=? 0 then Some (WRet0, total) else wx_loop r timeout slice (len - k) waited total
+  | WZero :: _ => Some (WRet0, total)
+  | WErr :: _ => Some (WFail, total)
+  | WSelErr :: _ => Some (WFail, total)
+  | WReady :: r => wx_loop r timeout slice len 0 total
+  | WTimeout :: r =>
+      let w := waited + slice in
+      let t := total + slice in
+      if w >=? timeout then Some (WGiveUp, t) else wx_loop r timeout slice len w t
+  end.
+
+Fixpoint count_ready (sched : list wev) : nat :=
+  match sched with
+  | [] => O
+  | WReady :: r => S (count_ready r)
+  | _ :: r => count_ready r
+  end.
